@@ -48,6 +48,15 @@ def histories():
         "remove 0 %s" % hexs(long1),
     ] + ["remove 0 %s" % hexs("subdir/grow%d" % j) for j in range(7)] + [
         "open_dir 0 %s 5" % hexs("subdir"),
+        # directory moves: the walk up through ".." of the destination (into-itself test), the ".." rewrite of the moved directory,
+        # a rename whose new spelling matches the source itself (the remaining entries are scanned for a second match)
+        "create_dir 0 %s 6" % hexs("top1"),
+        "create_dir 0 %s 7" % hexs("top1/inner dir"),
+        "create_dir 0 %s 8" % hexs("top2"),
+        "rename 0 %s 0 %s" % (hexs("top1/inner dir"), hexs("top2/inner moved")),
+        "rename 0 %s 0 %s" % (hexs("top2"), hexs("top2/inner moved/below itself")),
+        "rename 0 %s 0 %s" % (hexs("top2/inner moved"), hexs("top2/INNER MOVED")),
+        "list 8",
         "status_flags",
         "label_root",
         "drop_all",
